@@ -213,6 +213,10 @@ def field_obj(name):
         return verif.field.Other(name)
     if name.startswith("ens"):
         return verif.field.Ensemble(int(name[3:]))
+    if name.startswith("qu"):          # quantile level derived from the ensemble (or stored)
+        return verif.field.Quantile(float(name[2:]))
+    if name.startswith("th"):          # P(X <= threshold) derived from the ensemble (or stored)
+        return verif.field.Threshold(float(name[2:]))
     raise KeyError(name)
 
 
